@@ -18,68 +18,67 @@ func (e subsetErr) Error() string { return "outside subset: " + string(e) }
 
 // Tr translates one function under contract into facts and obligations.
 type Tr struct {
-	g            *Global
-	fn           *ssa.Function
-	key          string
-	fc           *FuncContract
-	sc           *Script
-	fresh        int
-	initVars     map[string]Value
-	heapSorts    map[string]string
-	typeFactDone map[string]bool
-	oldState     *State
-	specMode     int
-	oblCount     map[string]int
-	defaultProps []string
-	caseLabel    string
-	frameCount   int
-	curInstrIdx  int
-	curBlock     *ssa.BasicBlock
-	callCount    map[string]int
-	assumptions  map[string]bool
-	curPos       token.Pos
-	curFrame     *Frame
-	axiomsDone   bool
-	inlineStack  []string
-	cntSyms      map[string]string
-	lemmaDepth   int
-	stores       map[string]storeRec
-	freshRefs    map[string]bool
-	symTop       map[string]string
-	lastLoadTop  string
-	heapKind     map[string]string
-	evalDepth    int
-	curClause    string
-	lemmaProof   bool
-	revealed     map[string]bool
-	curMref      string
-	reachCache   map[int]map[int]bool
-	assumeMode   bool // evaluating a clause that is being assumed (loop invariant at the cut, callee postcondition)
-	visitCount   int
-	subTerms     map[string]string
-	frameTops    []string
-	allocParent  map[string]string        // heap version -> the version it extends by writes to freshly allocated objects only
-	opaqueAtoms  map[string][]opaqueInst  // opaque function symbol -> applications seen so far
+	g             *Global
+	fn            *ssa.Function
+	key           string
+	fc            *FuncContract
+	sc            *Script
+	fresh         int
+	initVars      map[string]Value
+	heapSorts     map[string]string
+	typeFactDone  map[string]bool
+	oldState      *State
+	specMode      int
+	oblCount      map[string]int
+	defaultProps  []string
+	caseLabel     string
+	frameCount    int
+	curInstrIdx   int
+	curBlock      *ssa.BasicBlock
+	callCount     map[string]int
+	assumptions   map[string]bool
+	curPos        token.Pos
+	curFrame      *Frame
+	axiomsDone    bool
+	inlineStack   []string
+	cntSyms       map[string]string
+	lemmaDepth    int
+	stores        map[string]storeRec
+	freshRefs     map[string]bool
+	symTop        map[string]string
+	lastLoadTop   string
+	heapKind      map[string]string
+	evalDepth     int
+	curClause     string
+	lemmaProof    bool
+	revealed      map[string]bool
+	curMref       string
+	reachCache    map[int]map[int]bool
+	assumeMode    bool // evaluating a clause that is being assumed (loop invariant at the cut, callee postcondition)
+	visitCount    int
+	subTerms      map[string]string
+	frameTops     []string
+	allocParent   map[string]string       // heap version -> the version it extends by writes to freshly allocated objects only
+	opaqueAtoms   map[string][]opaqueInst // opaque function symbol -> applications seen so far
 	footTemplates map[string]footTemplate // opaque function symbol -> read-set template of its definition
 	footUsed      map[string]bool
 	refGap        map[string][2]string // fresh object (or sub-object of one) -> the address gap it lives in
-	cbParam       ssa.Value     // callback parameter of an iterating function under verification (callback.go)
-	cbEnv         map[string]EV // its parameter bindings
-	stableUsed   map[string]bool
+	cbParam       ssa.Value            // callback parameter of an iterating function under verification (callback.go)
+	cbEnv         map[string]EV        // its parameter bindings
+	stableUsed    map[string]bool
 	pendingOpaque *opaqueInst
 }
 
 type opaqueInst struct {
-	fn   string
-	args []string
-	atom string
-	sd   *SpecDef
-	bool_ bool
+	fn      string
+	args    []string
+	atom    string
+	sd      *SpecDef
+	bool_   bool
 	related bool // the lineage relations to older applications have been emitted (relateOpaque)
 }
 
 var _ = opaqueInst{}
-
 
 func newTr(g *Global, fn *ssa.Function, key string, fc *FuncContract) *Tr {
 	return &Tr{g: g, fn: fn, key: key, fc: fc, sc: newScript(), initVars: map[string]Value{}, heapSorts: map[string]string{},
@@ -373,6 +372,14 @@ func (tr *Tr) oblige(st *State, kind, label string, props []string, goal string,
 	if goal == "true" {
 		ob.Status = "unsat"
 		ob.Solver = "trivial"
+	} else {
+		// heap versions current at the obligation (for the lean solver pass)
+		ob.Cur = make(map[string]bool, len(st.vars))
+		for _, v := range st.vars {
+			if sc, ok := v.(Sc); ok && strings.Contains(sc.T, "@") {
+				ob.Cur[sc.T] = true
+			}
+		}
 	}
 	tr.sc.obls = append(tr.sc.obls, ob)
 	// assert-then-assume
@@ -1193,7 +1200,7 @@ func (tr *Tr) mergeOpaqueAtoms(sts []*State, out *State, guards []string) {
 	for i, st := range sts {
 		exact := map[string]string{}  // incoming current version -> merged version
 		ancest := map[string]string{} // allocation-ancestor of an incoming version -> merged version
-		ancDist := map[string]int{}  // ... and its distance from the incoming version
+		ancDist := map[string]int{}   // ... and its distance from the incoming version
 		for name := range tr.heapSorts {
 			v, ok := st.vars[name]
 			if !ok {
